@@ -577,6 +577,36 @@ def W_fitter(rep, flow: Flow, want=("W3", "W4", "W5", "W6", "W7", "S1")):
         esrc = [a.value for a in _assigned(f.node, ew.id)] if isinstance(ew, ast.Name) else ([ew] if ew is not None else [])
         parser_cls = A_COUNTS_PARSER.split(".")[1]
         okc = any(isinstance(sv, ast.Call) and isinstance(sv.func, ast.Name) and sv.func.id == parser_cls for sv in esrc)
+        # only an EVIDENTLY different role is a finding: a value arriving as a parameter or out of a helper call is judged
+        # where it is produced
+        def role(srcs, depth=0):
+            rs = set()
+            for sv in srcs:
+                if isinstance(sv, ast.Name) and depth < 3:
+                    inner = [a.value for a in _assigned(f.node, sv.id) if not any(isinstance(x, ast.Name) and x.id == sv.id for x in ast.walk(a.value))]
+                    rs |= role(inner, depth + 1) if inner else {"unknown"}
+                    continue
+                txt = ast.unparse(sv)
+                if "get_counts" in txt:
+                    rs.add("counts")
+                elif isinstance(sv, ast.Call) and isinstance(sv.func, ast.Name) and sv.func.id == parser_cls:
+                    rs.add("parsed")
+                elif isinstance(sv, ast.Attribute) and sv.attr == "num_qubits" or (isinstance(sv, ast.Call) and isinstance(sv.func, ast.Name) and sv.func.id == "len"):
+                    rs.add("width")
+                elif isinstance(sv, ast.Attribute) and sv.attr in ("qubits", "measured_qubits"):
+                    rs.add("qubits")
+                elif isinstance(sv, ast.Attribute) and sv.attr == "circuit" or (isinstance(sv, ast.Call) and isinstance(sv.func, ast.Attribute) and sv.func.attr in ("inverse", "evolve", "copy")):
+                    rs.add("circuit-or-pauli")
+                elif isinstance(sv, (ast.Dict, ast.List, ast.Constant)) or (isinstance(sv, ast.Call) and isinstance(sv.func, ast.Name) and sv.func.id in ("Pauli", "dict", "list")):
+                    rs.add("literal")
+                elif isinstance(sv, ast.Subscript):
+                    rs |= role([sv.value], depth + 1)
+                else:
+                    rs.add("unknown")
+            return rs
+        zr, er = role(zsrc), role(esrc)
+        okw = not zsrc or (isinstance(zw, ast.Name) and zw.id in f.params) or bool(zr & {"width", "unknown"})
+        okc = not esrc or (isinstance(ew, ast.Name) and ew.id in f.params) or bool(er & {"parsed", "unknown"})
         if okz and oke and not okw:
             rep.finding("W5", f"{A_FITTER}:width", f"{pyfacts.where(f, zcall[2])}: the Z-mask constructor is given `{ast.unparse(zw) if zw is not None else '?'}` as number of qubits; it must be the width of the readout circuit [{pyfacts.norm_stmt(zcall[2])}]")
         elif okz and oke and not okc:
@@ -1045,7 +1075,8 @@ def W11_fitter_uses_list(rep, flow: Flow):
             csrcs = [cnt]
             if isinstance(cnt, ast.Name):
                 csrcs = [a.value for a in _assigned(f.node, cnt.id)]
-            if not any(isinstance(x, ast.Call) and isinstance(x.func, ast.Attribute) and x.func.attr == "get_counts" for sv in csrcs for x in ast.walk(sv)):
+            from_param = isinstance(cnt, ast.Name) and (cnt.id in f.params or not csrcs)
+            if not from_param and not any(isinstance(x, ast.Call) and isinstance(x.func, ast.Attribute) and x.func.attr == "get_counts" for sv in csrcs for x in ast.walk(sv)):
                 rep.finding("W11", f"{A_FITTER}:parser-counts", f"{pyfacts.where(f, c)}: the counts parser is given `{ast.unparse(cnt)}`, which does not come from get_counts(): the fitter does not evaluate the measured counts [{pyfacts.norm_stmt(c)}]")
                 continue
         if okk:
